@@ -1535,4 +1535,15 @@ def sweep_programs(mine=None) -> list:
 
     for i in range(0, len(ILL_STMTS), 8):
         emit("statement-contexts", False, lambda chunk=ILL_STMTS[i: i + 8]: stmt_defs(chunk))
+
+    # (6) PEP 695 type parameter lists (bounds are evaluated lazily, so the module imports) on defs, classes, aliases
+    def tparam_defs(tp):
+        first = tp.split(",")[0].split(":")[0].strip().lstrip("*")
+        return [f"def tf[{tp}](x: {first}) -> {first}: return x", f"async def atf[{tp}](*args: {first}): pass", f"class TC[{tp}]:\n    def m(self, x: {first}) -> {first}: return x",
+                f"type TA[{tp}] = list[{first}]", f"def outer():\n    def inner[{tp}](x: {first}): pass\n    class Inner[{tp}]: pass\n    type InnerA[{tp}] = {first}\n    return inner, Inner, InnerA",
+                f"class TM:\n    def meth[{tp}](self, x: {first}) -> {first}: return x", "def use():\n    return tf(1), TC(), TA, TM().meth(1)"]
+
+    for tp in TYPE_PARAMS + ["T = int", "T: int = bool", "*Ts = *tuple[int, str]", "**P = [int, str]", "T: (int, undef1)", "T: 'undef1'", "T: 1", "T: (int,)", "T: ()",
+                             "T: Later", "T: list[Later]", "T: T", "T: U, U: T", "T, T2: T", "T: Callable[[T], T]", "T: int | None", "T: Literal[1]"]:
+        emit("type-parameters", False, lambda tp=tp: tparam_defs(tp))
     return out
